@@ -198,8 +198,18 @@ func plans(c *core.Ctx) []plan {
 }
 
 func run(c *core.Ctx) {
-	c.Rule = "(a) for every decodable sequence of <=n wire records: GetUnknown of the decoded message (lazy, eager, dynamicpb) equals, record by record in input order, the records a reference classifier calls unknown for the schema (tags in minimal form), Marshal (default and deterministic) re-emits them in order, and with DiscardUnknown neither a reflective walk of the tree nor a re-decode of the Marshal output produced BEFORE any field access finds unknown bytes anywhere (top level, nested, groups, map values, lazy submessages), and Size equals the length of that output; (b) schema evolution: for every sub-schema obtained by deleting one field (or all fields of the nested message type) and every input: decode(sub) -> Marshal -> decode(full) has the same content as decode(full) directly. distinct = distinct (type, sub-schema, input) cases by construction"
+	c.Rule = "(a) for every decodable sequence of <=n wire records: GetUnknown of the decoded message (lazy, eager, dynamicpb) equals, record by record in input order, the records a reference classifier calls unknown for the schema (tags in minimal form), Marshal (default and deterministic) re-emits them in order, and with DiscardUnknown neither a reflective walk of the tree nor a re-decode of the Marshal output produced BEFORE any field access finds unknown bytes anywhere (top level, nested, groups, map values, lazy submessages), and Size equals the length of that output; (b) schema evolution: for every sub-schema obtained by deleting one field (or all fields of the nested message type) and every input: decode(sub) -> Marshal -> decode(full) has the same content as decode(full) directly. distinct = distinct (type, sub-schema, input) cases by construction; (c) the DiscardUnknown clause for MessageSet items (unresolvable type ids) is checked by child runs in the protolegacy and protolegacy,protoreflect builds over the C47 item alphabet"
 	c.Exhaustive = true
+	// MessageSet items are unknown fields too; that part needs the protolegacy builds
+	var children []*core.Child
+	if !core.IsChild() {
+		children = append(children, c.StartChild("legacy", "C09mset", "GOMAXPROCS=4"), c.StartChild("legacyreflect", "C09mset", "GOMAXPROCS=4"))
+	}
+	defer func() {
+		for _, ch := range children {
+			c.Join(ch)
+		}
+	}()
 	var planOut []map[string]any
 	for _, p := range plans(c) {
 		if c.Expired() {
